@@ -230,8 +230,9 @@ class StrEval:
             if isinstance(st, ast.Assign) and len(st.targets) == 1 and isinstance(st.targets[0], ast.Name):
                 name = st.targets[0].id
                 v = st.value
-                if isinstance(v, ast.List) and not v.elts:
-                    self.env[name] = ("list", [])
+                if isinstance(v, ast.List):
+                    # a list display: the same as an empty list followed by one append per element
+                    self.env[name] = ("list", [self.s(e) for e in v.elts])
                     continue
                 iv = self.i(v, soft=True)
                 if iv is not None:
